@@ -8,6 +8,7 @@ Scope of the claim (level `other`: a deductive core + bounded API-level stand-in
     with an oracle computed from the specification lookups, followed by serialize -> lenient load -> serialize (api editconform).
 Histories over the element graph (copy, move, remove, several files) are not under contract: the graph is out of the verifier's reach.
 """
+from vxlib.common import result_line
 import re
 
 from vxlib.common import Obligation, run
@@ -70,7 +71,7 @@ def check(ctx):
     for which, what in PROBES:
         rc, out, err, secs = run([b, 'api', 'editprobe', which], timeout=300)
         ctx.t('native-enum', secs)
-        line = (out.strip().splitlines() or [''])[-1]
+        line = result_line(out)
         name = 'native/api-edit-probe/%s' % which
         if line.startswith('OK'):
             ctx.add(Obligation(ctx.prop, name, 'native-eval', 'bounded', 'discharged', seconds=secs, bound='one fixed editing history', detail='the recorded history no longer fails: %s' % what))
